@@ -12,6 +12,7 @@ package main
 import (
 	"errors"
 	"fmt"
+	"io"
 	"math/rand"
 	"os"
 	"path/filepath"
@@ -19,10 +20,12 @@ import (
 	"strings"
 	"sync"
 	"sync/atomic"
+	"time"
 
 	git "github.com/go-git/go-git/v6"
 	"github.com/go-git/go-git/v6/plumbing"
 	"github.com/go-git/go-git/v6/plumbing/object"
+	"github.com/go-git/go-git/v6/storage/memory"
 
 	"verif/internal/dagx"
 	"verif/internal/gen"
@@ -34,7 +37,7 @@ const workers = 8
 
 func main() {
 	vf.Main("C42", "exploration",
-		"cases = (DAG, committer-time assignment, query); exhaustive part: one representative per isomorphism class of DAGs with n<=N nodes and <=2 parents x ALL weak orderings of committer times (ties and children older than parents included) x all ordered pairs (IsAncestor, MergeBase) and all subsets of size>=2 in 3 input orders (Independents), plus fast-forward test through Repository.Merge for all pairs x all shallow subsets on 3 time orderings per DAG; random part: DAGs of 6..40 commits with octopus merges and skewed times; non-trivial = query over distinct commits of a component with >=1 edge; shape = (iso class, time ordering, query kind, arguments); oracle = set reachability over the generated DAG, all disagreements and a deterministic sample confirmed with git merge-base",
+		"cases = (DAG, committer-time assignment, query); exhaustive part: one representative per isomorphism class of DAGs with n<=N nodes and <=2 parents x ALL weak orderings of committer times (ties and children older than parents included) x all ordered pairs (IsAncestor, MergeBase) and all subsets of size>=2 in 3 input orders (Independents; for n=5: MergeBase on unordered pairs plus both orders when times tie, one input order per subset), plus fast-forward test through Repository.Merge for all pairs x all shallow subsets on 2 time orderings per DAG (in-memory storage sharing the on-disk objects; random part on filesystem storage); random part: DAGs of 6..40 commits with octopus merges and skewed times; non-trivial = query over distinct commits of a component with >=1 edge; shape = (iso class, time ordering, query kind, arguments); oracle = set reachability over the generated DAG, all disagreements and a deterministic sample confirmed with git merge-base",
 		run)
 }
 
@@ -105,6 +108,7 @@ func sampled(every int, parts ...any) bool {
 func run(c *vf.Ctx) {
 	g := gitx.New(c.Scratch)
 	k := &checker{c: c, g: g}
+	t00 := time.Now() // phase timings go to the log only; no oracle reads the clock
 
 	// ---------- exhaustive sub-space ----------
 	maxN := c.N(4, 5)
@@ -127,9 +131,9 @@ func run(c *vf.Ctx) {
 				}
 				comps = append(comps, dagx.DAG{Parents: ps, Time: t})
 				cls = append(cls, key)
-				// FF sub-space: identity order (monotone), reversed (fully skewed), all ties
+				// FF sub-space (the walk does not look at times): identity order (monotone) and reversed (fully skewed)
 				isFF := false
-				if isIdentity(ord) || isReversed(ord) || isAllTies(ord) {
+				if isIdentity(ord) || isReversed(ord) {
 					isFF = true
 				}
 				_ = oi
@@ -150,10 +154,11 @@ func run(c *vf.Ctx) {
 		sp.anc[i] = dagx.Anc(comps[i].Parents)
 	}
 	c.Count("components_exhaustive", len(comps))
+	fmt.Printf("phase import done %.1fs\n", time.Since(t00).Seconds())
 	k.runSpace(sp)
 
 	// ---------- random sub-space ----------
-	nh := c.N(24, 400)
+	nh := c.N(12, 300)
 	var rmu sync.Mutex
 	vf.Parallel(nh, workers, func(i int) {
 		r := c.Rand("hist", i)
@@ -185,7 +190,7 @@ func run(c *vf.Ctx) {
 
 	c.Extra("git_invocations", gitx.Calls.Load())
 	c.Floor("queries evaluated", c.Counter("q_isanc")+c.Counter("q_mergebase")+c.Counter("q_indep")+c.Counter("q_ff"), c.N(150000, 3000000))
-	c.Floor("git confirmations", c.Counter("git_confirmations"), c.N(400, 4000))
+	c.Floor("git confirmations", c.Counter("git_confirmations"), c.N(300, 3000))
 	c.Floor("ff queries with a shallow boundary", c.Counter("q_ff_shallow"), c.N(5000, 100000))
 	c.Floor("queries with skewed or tied times", c.Counter("q_skewed_or_ties"), c.N(50000, 1000000))
 	c.Floor("multi-merge-base answers", c.Counter("mb_multi"), 50)
@@ -258,6 +263,8 @@ func (v *view) commit(gidx int) (*object.Commit, error) {
 
 func (k *checker) runSpace(sp *space) {
 	c := k.c
+	t0 := time.Now()
+	defer func() { fmt.Printf("phase space=%s total %.1fs\n", sp.name, time.Since(t0).Seconds()) }()
 	// FF needs a private repository per worker (Merge moves the branch): only the FF components are copied.
 	var ffComps []int
 	for i, f := range sp.ff {
@@ -289,24 +296,59 @@ func (k *checker) runSpace(sp *space) {
 		}(w)
 	}
 	wg.Wait()
-	// FF pass
+	fmt.Printf("phase pure queries %.1fs\n", time.Since(t0).Seconds())
+	// FF pass. Repository.Merge moves the branch, so every worker needs private refs/shallow state: the
+	// commits of the FF components are loaded (through go-git's filesystem storer) into one shared in-memory
+	// object map; each worker gets its own memory.Storage (own refs, own shallow list) on top of it.
+	base := memory.NewStorage()
+	{
+		repo, err := git.PlainOpen(sp.dir)
+		if err != nil {
+			c.Broken("PlainOpen: %v", err)
+			return
+		}
+		for _, ci := range ffComps {
+			for i := 0; i < sp.m.Comps[ci].N(); i++ {
+				h := plumbing.NewHash(sp.ids[sp.m.Off[ci]+i])
+				o, err := repo.Storer.EncodedObject(plumbing.CommitObject, h)
+				if err != nil {
+					c.Broken("EncodedObject(%s): %v", h, err)
+					return
+				}
+				mo := &plumbing.MemoryObject{}
+				mo.SetType(o.Type())
+				rd, err := o.Reader()
+				if err != nil {
+					c.Broken("reader: %v", err)
+					return
+				}
+				data, _ := io.ReadAll(rd)
+				rd.Close()
+				mo.Write(data)
+				if got, err := base.SetEncodedObject(mo); err != nil || got != h {
+					c.Broken("memory copy of %s: %v %s", h, err, got)
+					return
+				}
+			}
+		}
+		repo.Close()
+	}
 	next.Store(0)
 	for w := 0; w < workers; w++ {
 		wg.Add(1)
 		go func(w int) {
 			defer wg.Done()
-			dir := filepath.Join(c.Scratch, fmt.Sprintf("%s-ff-w%d", sp.name, w))
-			if err := gitx.CopyDir(sp.dir, dir); err != nil {
-				c.Broken("copy: %v", err)
+			st := memory.NewStorage()
+			st.ObjectStorage = base.ObjectStorage // shared maps, read-only from here on
+			if err := st.SetReference(plumbing.NewSymbolicReference(plumbing.HEAD, "refs/heads/master")); err != nil {
+				c.Broken("set HEAD: %v", err)
 				return
 			}
-			defer os.RemoveAll(dir)
-			repo, err := git.PlainOpen(dir)
+			repo, err := git.Open(st, nil)
 			if err != nil {
-				c.Broken("PlainOpen: %v", err)
+				c.Broken("git.Open(memory): %v", err)
 				return
 			}
-			defer repo.Close()
 			v := &view{sp: sp, repo: repo}
 			for {
 				i := int(next.Add(1) - 1)
@@ -331,6 +373,7 @@ func (k *checker) runSpace(sp *space) {
 		}(w)
 	}
 	wg.Wait()
+	fmt.Printf("phase ff queries %.1fs\n", time.Since(t0).Seconds())
 	k.confirmAll(sp)
 }
 
@@ -382,23 +425,6 @@ func (k *checker) timeFlags(sp *space, ci int) string {
 	return dagx.TimeClass(d.Parents, d.Time)
 }
 
-func timeOrderKey(t []int64) string {
-	// rank pattern
-	s := append([]int64(nil), t...)
-	sort.Slice(s, func(i, j int) bool { return s[i] < s[j] })
-	rank := map[int64]int{}
-	for _, x := range s {
-		if _, ok := rank[x]; !ok {
-			rank[x] = len(rank)
-		}
-	}
-	var b strings.Builder
-	for _, x := range t {
-		fmt.Fprintf(&b, "%d.", rank[x])
-	}
-	return b.String()
-}
-
 // pureQueries runs IsAncestor / MergeBase / Independents on component ci.
 // r == nil: exhaustive over pairs and subsets; else random subsets (pairs still exhaustive).
 func (k *checker) pureQueries(v *view, ci int, r *rand.Rand) {
@@ -416,9 +442,6 @@ func (k *checker) pureQueries(v *view, ci int, r *rand.Rand) {
 		}
 	}
 	shapeBase := sp.cls[ci] + "|" + tc
-	if r == nil {
-		shapeBase = sp.cls[ci] + "|" + timeOrderKey(d.Time)
-	}
 	cm := make([]*object.Commit, n)
 	for i := 0; i < n; i++ {
 		var err error
@@ -451,6 +474,7 @@ func (k *checker) pureQueries(v *view, ci int, r *rand.Rand) {
 			c.Count("q_skewed_or_ties", nq)
 		}
 	}
+	thin := r == nil && n >= 5 // n=5 space: MergeBase on a<=b plus (b,a) when the two times tie; each subset in one input order
 	for a := 0; a < n; a++ {
 		for b := 0; b < n; b++ {
 			// IsAncestor
@@ -468,6 +492,9 @@ func (k *checker) pureQueries(v *view, ci int, r *rand.Rand) {
 			c.Eval(shapeBase+fmt.Sprintf("|isanc|%d,%d", a, b), hasEdge && a != b)
 			k.screen(q, got == want && q.GotErr == "")
 			// MergeBase
+			if thin && a > b && d.Time[a] != d.Time[b] {
+				continue
+			}
 			var mb []*object.Commit
 			p, st = vf.Catch(func() { mb, gerr = cm[a].MergeBase(cm[b]) })
 			wantM := dagx.MergeBases(anc, a, b)
@@ -496,15 +523,17 @@ func (k *checker) pureQueries(v *view, ci int, r *rand.Rand) {
 			if len(l) < 2 {
 				continue
 			}
-			sets = append(sets, l)
 			rev := make([]int, len(l))
 			for i := range l {
 				rev[i] = l[len(l)-1-i]
 			}
-			sets = append(sets, rev)
-			// rotated with a duplicate of the first element appended
+			// rotated with a duplicate appended
 			rot := append(append([]int{}, l[1:]...), l[0], l[1])
-			sets = append(sets, rot)
+			if thin {
+				sets = append(sets, [][]int{l, rev, rot}[(ci+int(m))%3])
+			} else {
+				sets = append(sets, l, rev, rot)
+			}
 		}
 	} else {
 		for s := 0; s < 120; s++ {
@@ -591,15 +620,8 @@ func (k *checker) ffQuery(v *view, ci, old, nw int, sh uint64) {
 	if dagx.TimeClass(d.Parents, d.Time) != "monotone" {
 		c.Count("q_skewed_or_ties", 1)
 	}
-	c.Eval(fmt.Sprintf("%s|%s|ff|%d,%d|sh%x", sp.cls[ci], timeOrderKeyIf(sp, d), old, nw, sh), old != nw)
+	c.Eval(fmt.Sprintf("%s|%s|ff|%d,%d|sh%x", sp.cls[ci], dagx.TimeClass(d.Parents, d.Time), old, nw, sh), old != nw)
 	k.screen(q, got == want && q.GotErr == "")
-}
-
-func timeOrderKeyIf(sp *space, d dagx.DAG) string {
-	if sp.name == "exh" {
-		return timeOrderKey(d.Time)
-	}
-	return dagx.TimeClass(d.Parents, d.Time)
 }
 
 // screen queues a query for git confirmation: all disagreements, and a deterministic sample of agreements.
@@ -609,11 +631,11 @@ func (k *checker) screen(q query, agree bool) {
 		k.add(q)
 		return
 	}
-	every := 211
+	every := 450 // ~330 samples of the quick exhaustive space
 	if q.Space != "exh" {
-		every = 97
+		every = 997
 	} else if !k.c.Quick() {
-		every = 1499
+		every = 1811
 	}
 	if sampled(every, q.Space, q.Comp, q.Kind, q.Args, q.Shallow) {
 		q.sample = true
@@ -646,6 +668,35 @@ func (k *checker) confirmAll(sp *space) {
 		}
 		return fmt.Sprint(a.Args, a.Shallow) < fmt.Sprint(b.Args, b.Shallow)
 	})
+	// Cap git confirmations per finding key (a known mechanism can produce thousands of disagreements; each
+	// key still gets its deterministic share, and only git-confirmed disagreements are ever reported).
+	capPerKey := c.N(25, 300)
+	if sp.name != "exh" {
+		capPerKey = 2
+	}
+	{
+		perKey := map[string][]query{}
+		var kept []query
+		for _, q := range mine {
+			if q.sample {
+				kept = append(kept, q)
+				continue
+			}
+			key := findingKey(sp.m.Comps[q.Comp], q)
+			perKey[key] = append(perKey[key], q)
+		}
+		for _, qs := range perKey {
+			sort.SliceStable(qs, func(i, j int) bool {
+				return vf.ShapeHash(qs[i].Comp, qs[i].Kind, qs[i].Args, qs[i].Shallow) < vf.ShapeHash(qs[j].Comp, qs[j].Kind, qs[j].Args, qs[j].Shallow)
+			})
+			if len(qs) > capPerKey {
+				c.Count("disagreements_over_confirmation_cap", len(qs)-capPerKey)
+				qs = qs[:capPerKey]
+			}
+			kept = append(kept, qs...)
+		}
+		mine = kept
+	}
 	// non-shallow queries can be confirmed in parallel in the shared directory; shallow ones need their own .git/shallow
 	var plain, shallow []query
 	for _, q := range mine {
@@ -671,9 +722,9 @@ func (k *checker) confirmAll(sp *space) {
 			}
 			groups[key] = append(groups[key], q)
 		}
-		// each worker gets an own light copy: a fresh repository borrowing the objects through alternates
-		vf.Parallel(len(keys), w, func(i int) {
-			qs := groups[keys[i]]
+		// a small pool of light repositories that borrow the objects through alternates; .git/shallow is rewritten per group
+		pool := make(chan string, w)
+		for i := 0; i < w; i++ {
 			dir, err := os.MkdirTemp(c.Scratch, "shallow-")
 			if err != nil {
 				c.Broken("mkdtemp: %v", err)
@@ -689,6 +740,12 @@ func (k *checker) confirmAll(sp *space) {
 				c.Broken("alternates: %v", err)
 				return
 			}
+			pool <- dir
+		}
+		vf.Parallel(len(keys), w, func(i int) {
+			qs := groups[keys[i]]
+			dir := <-pool
+			defer func() { pool <- dir }()
 			var b strings.Builder
 			for _, s := range qs[0].Shallow {
 				b.WriteString(sp.ids[sp.m.Off[qs[0].Comp]+s] + "\n")
@@ -845,21 +902,48 @@ func findingKey(d dagx.DAG, q query) string {
 			}
 			return "ff:false-negative:noshallow"
 		}
-		// shallow variants: classify by whether the walk from new in the grafted graph touches a shallow commit
-		ganc := dagx.Anc(dagx.Graft(d.Parents, listToMask(q.Shallow)))
-		touches := ganc[q.Args[1]]&listToMask(q.Shallow) != 0
-		if q.Got[0] == 1 {
-			if touches {
+		// shallow variants: compare with a model of the KNOWN defective mechanism (parents of every shallow
+		// commit are pre-marked as seen, so they are never visited, not even as the start commit or through
+		// another path; reaching a shallow commit without finding old answers "fast-forward"). Only answers
+		// that this mechanism explains exactly fall under the two known keys.
+		if knownShallowMechanism(d, q.Args[0], q.Args[1], listToMask(q.Shallow)) == (q.Got[0] == 1) {
+			if q.Got[0] == 1 {
 				return "ff-shallow:assumed-ff-when-walk-reaches-shallow-commit"
 			}
-			return "ff-shallow:false-positive-without-reaching-shallow"
+			return "ff-shallow:parents-of-shallow-commits-never-visited"
 		}
-		if touches {
-			return "ff-shallow:false-negative-although-boundary-reached"
+		if q.Got[0] == 1 {
+			return "ff-shallow:false-positive-unexplained"
 		}
-		return "ff-shallow:false-negative-parent-of-unreached-shallow-commit-ignored"
+		return "ff-shallow:false-negative-unexplained"
 	}
 	return q.Kind + ":other"
+}
+
+// knownShallowMechanism replays what the pinned isFastForward does with a shallow list.
+func knownShallowMechanism(d dagx.DAG, old, nw int, shallow uint64) bool {
+	var blocked uint64
+	for _, s := range dagx.Bits(shallow) {
+		for _, p := range d.Parents[s] {
+			blocked |= 1 << uint(p)
+		}
+	}
+	var visited uint64
+	var walk func(i int)
+	walk = func(i int) {
+		if blocked&(1<<uint(i)) != 0 || visited&(1<<uint(i)) != 0 {
+			return
+		}
+		visited |= 1 << uint(i)
+		for _, p := range d.Parents[i] {
+			walk(p)
+		}
+	}
+	walk(nw)
+	if visited&(1<<uint(old)) != 0 {
+		return true
+	}
+	return visited&shallow != 0
 }
 
 func hasNeg(l []int) bool {
